@@ -415,13 +415,25 @@ def run_scenario(ctx, rnd, s, npoints, all_batches):
             fcn = cfg.get_fcn(all_data=all_data, batch=batch)
             fcns = fcn.fcns if hasattr(fcn, "fcns") else [fcn]
             parts = []
+            if bi == 0:
+                ref_grad = {}
             for gi, fi in enumerate(fcns):
                 fb = s.fb[gi] if s.model in CFIT_LIKE else None
                 p = capture_part(s.model, fi, amp, raws[gi], x)
                 parts.append(p)
-                gl = part_goals(s, gi, pi, p, batch, fb, "b%d" % batch)
-                if bi > 0:  # further batch sizes: only the batched value layer (the others do not depend on batch)
-                    gl = [c for c in gl if c[0].endswith("_G")]
+                if bi == 0:
+                    gl = part_goals(s, gi, pi, p, batch, fb, "b%d" % batch)
+                    ref_grad[gi] = p.gradval
+                else:
+                    # further batch sizes: the model term of layer G does not depend on the batch split
+                    # (C06_nll_batch_independent), so the value at this batch size is tied to it through the value at
+                    # the first batch size: |y_b - y_b0| <= tol is a closed arithmetic goal.
+                    gl = []
+                    if p.gradval is not None and ref_grad.get(gi) is not None:
+                        scale = float(np.sum(np.abs(np.array(p.W) * np_clip_log(p.f)))) + abs(p.gradval)
+                        gl = [("b%d_s%d_g%d_p%d_B" % (batch, s.sid, gi, pi), le(Rq(p.gradval), ref_grad[gi], 1e-10 * scale), IP,
+                               {"layer": "gradval", "site": "nll_grad_batch (value, batch independence)", "reference_batch": b0,
+                                "value": p.gradval, "reference_value": ref_grad[gi]})]
                 for c in gl:
                     c[3].update({"model": s.model, "batch": batch, "group": gi, "scenario": s.sid})
                 cases += gl
